@@ -6,7 +6,7 @@ PID = "C04"
 
 def run(v):
     # 11 disturbance kinds x 4 application checkpoint modes x 3 relative lengths of the new WAL generation = 132 scenarios
-    n = 192 if v.tier == "quick" else 192 * 6
+    n = 204 if v.tier == "quick" else 204 * 6
     D.run_db(v, PID, "c04", n, 0,
              "disturbance scenarios: {new process idle / after application writes / after writes+checkpoint(mode)+writes; same DB "
              "object Close+Open around writes+checkpoint+writes; WAL removed by the last application connection; database file "
